@@ -27,11 +27,20 @@ func (r *Runner) observeGraph() map[string]any {
 	e.DB.IterateGraphEdges(func(source, target, rel string, weight float32, props []byte, cTime, dTime int64) {
 		vers = append(vers, edgeVer{strip(source), strip(target), rel, cTime, dTime, weight, append([]byte(nil), props...)})
 	})
+	// project every timestamp onto the operation whose wall-clock interval contains it, then rank densely
+	opOf := func(x int64) int64 {
+		for i, iv := range r.opIntervals {
+			if x >= iv[0] && x <= iv[1] {
+				return int64(i + 1)
+			}
+		}
+		return -x // not produced by any operation of this run: keep it distinct (will not match the model)
+	}
 	stampSet := map[int64]bool{}
 	for _, v := range vers {
-		stampSet[v.c] = true
+		stampSet[opOf(v.c)] = true
 		if v.d != 0 {
-			stampSet[v.d] = true
+			stampSet[opOf(v.d)] = true
 		}
 	}
 	stamps := make([]int64, 0, len(stampSet))
@@ -43,7 +52,17 @@ func (r *Runner) observeGraph() map[string]any {
 		if x == 0 {
 			return 0
 		}
-		return float64(sort.Search(len(stamps), func(i int) bool { return stamps[i] >= x }) + 1)
+		o := opOf(x)
+		return float64(sort.Search(len(stamps), func(i int) bool { return stamps[i] >= o }) + 1)
+	}
+	// one representative real timestamp per rank, for the as-of queries: the latest stamp of that operation
+	repr := map[int64]int64{}
+	for _, v := range vers {
+		for _, x := range []int64{v.c, v.d} {
+			if x != 0 && x > repr[opOf(x)] {
+				repr[opOf(x)] = x
+			}
+		}
 	}
 	versions := []any{}
 	for _, v := range vers {
@@ -57,7 +76,7 @@ func (r *Runner) observeGraph() map[string]any {
 	}
 	nodeSet := map[string]bool{}
 	for _, x := range r.P.GNodes {
-		nodeSet[x] = true
+		nodeSet[r.id(x)] = true
 	}
 	for _, v := range vers {
 		relSet[v.r] = true
@@ -65,7 +84,10 @@ func (r *Runner) observeGraph() map[string]any {
 		nodeSet[v.t] = true
 	}
 	outq, inq := []any{}, []any{}
-	times := append([]int64{0}, stamps...)
+	times := []int64{0}
+	for _, o := range stamps {
+		times = append(times, repr[o])
+	}
 	for _, T := range times {
 		for n := range nodeSet {
 			for rel := range relSet {
